@@ -14,8 +14,9 @@ ALL = {
             "scheduler with write-monitor POR + deviation-bounded schedule enumeration; NumPy backend as reference model",
             "Every chunking of a 4x5 (thorough 5x6) raster x every Dask-accepting op x kernel shapes x non-finite cell placements x "
             "dtypes/cell sizes, and every independent chunking pair of multi-band inputs, is computed under our scheduler and "
-            "compared cell for cell with the NumPy call; every task is checked pure (=> all schedules equivalent), all <=1 (2) "
-            "deviation schedules of 2-block graphs are executed.",
+            "compared cell for cell with the NumPy call; parameter variants built on the same Dask inputs are also computed "
+            "together in one graph; every task is checked pure (=> all schedules equivalent), all <=1 (2) deviation schedules "
+            "of 2-block graphs are executed.",
             "Trusts the NumPy backend as reference (as the property states), Dask's graph construction, and the purity argument "
             "(tasks that neither mutate reachable values nor global state commute). Threads x {1,2,4,16} runs are a labelled complement.",
             "DESIGN.md §2 C01, §1.2 E3"),
@@ -55,7 +56,8 @@ ALL = {
     "C07": ("exhaustive enumeration of chunkings x <=2-target layouts x max_distance grid under the controlled Dask scheduler; "
             "NumPy backend as reference model",
             "Every chunking of a 3x4 raster x every <=2-target layout x halo widths from 0 cells to the raster size, the single-block "
-            "fallback, non-square cells, NaN cells; compared with the whole-raster NumPy result; purity of every task monitored.",
+            "fallback, non-square / descending / non-uniform coordinates, NaN cells, explicit and signed target values, several "
+            "lazy results computed in one graph; compared with the whole-raster NumPy result; purity of every task monitored.",
             "Interpreted sources + compiled conformance slice; equidistant targets may be named differently.",
             "DESIGN.md §2 C07"),
     "C08": ("exhaustive enumeration of 3x3 windows (tile-packed) x cell sizes x dtypes + single-cell perturbation locality vs "
@@ -71,15 +73,16 @@ ALL = {
             "DESIGN.md §2 C09"),
     "C10": ("exhaustive enumeration of function x backend x dtype x memory layout and of depth-2 call chains with a deep "
             "before/after snapshot monitor, shares_memory and write probe",
-            "Every public raster function x {numpy,dask} x 10 dtypes x {C,F,strided,read-only} from the fresh state and every chain "
-            "f->g where g receives f's output; arguments deep-snapshotted, outputs checked for aliasing (shares_memory + write "
+            "Every public raster function (incl. degenerate parameterisations) x {numpy,dask} x 10 dtypes x {C,F,strided,read-only} "
+            "from the fresh state, attribute/coordinate variants of the inputs, and every chain f->g where g receives f's output; "
+            "arguments (rasters and kernels) deep-snapshotted, outputs checked for aliasing (shares_memory + write "
             "probe) and for the input's shape/dims/coords/attrs/backend.",
             "Documented exceptions encoded as the statement lists them; a dtype rejected by raising is not a violation.",
             "DESIGN.md §2 C10"),
     "C11": ("explicit-state history exploration with fresh-interpreter oracle (de Bruijn pair/triple covers, depth-2 trie), "
-            "observable-state digests, thread-count grid, preemption-bounded two-thread interleaving at line granularity, "
+            "observable-state digests, NUMBA_NUM_THREADS x Dask scheduler x PYTHONHASHSEED grid, preemption-bounded two-thread interleaving at line granularity, "
             "parallel-kernel gate",
-            "Every ordered pair of a 24(58)-letter alphabet of colliding calls and every ordered triple of the core alphabet are executed "
+            "Every ordered pair of a 26(66)-letter alphabet of colliding calls and every ordered triple of the core alphabet are executed "
             "adjacently in fresh interpreters and each call is compared with the same call alone in a fresh interpreter; module "
             "state vector digested around every call; all <=1(2)-preemption interleavings of pairs of public calls.",
             "Histories covered by windows (pairs/triples) inside long histories + depth-2 trie from the fresh state; real numba "
